@@ -5,6 +5,12 @@
   code has no hidden statics, prints nothing and has no data races is the runtime residue: it is observed
   (fds 1/2 of a worker that itself prints nothing; the same calls in shuffled order and from 16 threads),
   not proved — this check is labelled partial for that reason.
+
+  The theorems below would hold for any Lean function put in place of `run1`: their content is the modelling decision
+  itself — the codec has **no library state and no output channel** (`LibState = Unit`).  Whether that decision renders
+  the code is checked on every run, outside Lean, by `bin/check`'s purity scan of /repo's non-test sources (no
+  `static mut`, no static with interior mutability, no `thread_local!` / `lazy_static!`, no print / eprint / dbg macro,
+  no `io::stdout` / `io::stderr`): a hit is reported as a violation of C19 even when no observation shows it.
 -/
 import Rl2tp.Model.Message
 import Rl2tp.Model.Hide
